@@ -138,6 +138,9 @@ def may_be_complex(t: T, rng, n=12):
 def run(ctx) -> Report:
     rep = Report("C23")
     prog = ctx.prog
+    # the memo-key clause first: it needs no interpretation, and what it finds is reported even if a later clause cannot follow the code
+    from ..memokey import check_memo_keys, memo_rule  # noqa: F401
+    memo_rule(ctx, rep, "C23-key", ['ufl.algorithms.comparison_checker', 'ufl.algorithms.remove_complex_nodes'])
     ctx.crosscheck_dispatch({"CheckComparisons", "ComplexNodeRemoval"})
     ccls = prog.get_class(CHK)
     cm, _ = uflmodel.base_models()
@@ -280,7 +283,6 @@ def run(ctx) -> Report:
     rep.assumptions = ["arguments, geometric quantities and real literals are real; coefficients, constants and complex literals may be complex", "completeness (accepting every real comparison) is not required by the property and not checked"]
     from ..memokey import memo_rule
 
-    memo_rule(ctx, rep, "C23-key", ['ufl.algorithms.comparison_checker', 'ufl.algorithms.remove_complex_nodes'])
     return rep
 
 
